@@ -20,6 +20,15 @@ TreeProgs == LET q == SetToSeq(TreeSet)
 FileProgs == IF "PROG_FILE" \in DOMAIN IOEnv THEN JsonDeserialize(IOEnv.PROG_FILE) ELSE <<>>
 All == TreeProgs \o FileProgs
 ASSUME JsonSerialize(IOEnv.OUT_FILE, [i \in DOMAIN All |-> [body |-> All[i].body, toks |-> Unparse(All[i].body)]])
+\* A theorem about the specification itself, checked on every program that passes through here: the token spans of the
+\* nodes (C13) lie within the text, and in pre-order every later node lies inside or completely after every earlier one.
+RangesOK(body) ==
+    LET rs == Ranges(body)
+        n == Len(Unparse(body))
+    IN /\ \A i \in DOMAIN rs : 1 <= rs[i].a /\ rs[i].a <= rs[i].b /\ rs[i].b <= n
+       /\ \A i, j \in DOMAIN rs : i < j => /\ rs[j].a >= rs[i].a
+                                            /\ (rs[j].b <= rs[i].b \/ rs[j].a > rs[i].b)
+ASSUME \A i \in DOMAIN All : RangesOK(All[i].body)
 ASSUME PrintT(<<"UNPARSED", Len(All), Cardinality(TreeSet)>>)
 
 VARIABLE v
